@@ -55,6 +55,13 @@ type ChildResponse struct {
 	Batch  []ChildResponse `json:"batch,omitempty"`
 }
 
+type startError struct {
+	killed bool // the process was killed (SIGKILL) before it became ready
+	msg    string
+}
+
+func (e *startError) Error() string { return e.msg }
+
 // ErrChildDied is returned when the child process is gone.
 var ErrChildDied = fmt.Errorf("child process died")
 
@@ -101,7 +108,20 @@ jsonstore = %q
 func ChildBinary() string { return os.Getenv("VERIF_TOOL_VERIF_CHILD") }
 
 // StartChild starts a server process on the stores under dir and waits until it is ready.
-func StartChild(dir string) (*Child, error) {
+func StartChild(dir string) (*Child, error) { return startChild(dir, "") }
+
+// StartChildArmed starts a server that kills itself at the n-th write point (matching filter) of its own start-up.
+// died reports that it did so before becoming ready; otherwise the returned child is ready and still armed
+// (the count continues; call Disarm).
+func StartChildArmed(dir string, n int, filter string) (c *Child, died bool, err error) {
+	c, err = startChild(dir, fmt.Sprintf("%d:%s", n, filter))
+	if se, ok := err.(*startError); ok && se.killed {
+		return nil, true, nil
+	}
+	return c, false, err
+}
+
+func startChild(dir, arm string) (*Child, error) {
 	bin := ChildBinary()
 	if bin == "" {
 		return nil, fmt.Errorf("VERIF_TOOL_VERIF_CHILD not set")
@@ -118,7 +138,7 @@ func StartChild(dir string) (*Child, error) {
 	c.cmd = exec.Command(bin, cfg)
 	c.cmd.Dir = dir
 	c.cmd.Stderr = ef
-	c.cmd.Env = append(os.Environ(), "TMPDIR="+dir)
+	c.cmd.Env = append(os.Environ(), "TMPDIR="+dir, "VERIF_CHILD_ARM="+arm)
 	c.cmd.SysProcAttr = &syscall.SysProcAttr{Pdeathsig: syscall.SIGKILL}
 	if c.in, err = c.cmd.StdinPipe(); err != nil {
 		return nil, err
@@ -139,8 +159,18 @@ func StartChild(dir string) (*Child, error) {
 	// wait for "ready"
 	r, err := c.read(30 * time.Second)
 	if err != nil || r.Text != "ready" {
+		killed := false
+		select {
+		case <-c.waited:
+			if ee, ok := c.exit.(*exec.ExitError); ok {
+				if ws, ok := ee.Sys().(syscall.WaitStatus); ok && ws.Signaled() && ws.Signal() == syscall.SIGKILL {
+					killed = true
+				}
+			}
+		case <-time.After(2 * time.Second):
+		}
 		c.Kill()
-		return nil, fmt.Errorf("child did not become ready: %v (stderr: %s)", err, c.StderrTail(1500))
+		return nil, &startError{killed: killed, msg: fmt.Sprintf("child did not become ready: %v (stderr: %s)", err, c.StderrTail(1500))}
 	}
 	return c, nil
 }
